@@ -3,10 +3,10 @@ import pk, src
 from common import jhash, first_diff
 from pkgrun import *
 
-PROF = profile(tokens=True, straddle_ranges=0.15, no_textbox_in_link=True, no_marker_in_link=True, math_markup=False, alt_markup=False, p_comment_marker=0.2, p_comments=0.92,
+PROF = profile(tokens=True, straddle_ranges=0.15, no_textbox_in_link=True, math_markup=False, alt_markup=False, p_comment_marker=0.2, p_comments=0.92,
                p_textbox=0.0, p_vmerge=0.0, p_table=0.2, p_style=0.45, p_list=0.35, p_text=0.55, inlines=(1, 5), p_sdt_cell=0.0, p_block_misc=0.1)
 RULE = ('documents with 0-8 comment ranges starting and ending at arbitrary run boundaries, spanning paragraphs / cells / tables, nested '
-        'and overlapping, in heading and list paragraphs, with count mismatches and missing comments part; both html settings; checker: '
+        'and overlapping, in heading and list paragraphs, inside hyperlinks (rounded outwards to the link, which is one run), with count mismatches and missing comments part; both html settings; checker: '
         'reference text holds exactly the text tokens between the two markers, is a contiguous slice of the flattened body_runs, author / '
         'date / body as in the comments part, comments-part order, [] on mismatch or missing part; correspondence: comments and body_runs, '
         'model vs implementation; non-trivial = at least 2 well-formed ranges; distinct by archive hash')
@@ -15,12 +15,26 @@ RULE = ('documents with 0-8 comment ranges starting and ending at arbitrary run 
 def expected(root, croot):
     """well-formed ranges of the main part: id -> tokens between the markers; and the comment entries"""
     order = []          # ('s'|'e', id) | ('t', token)
-    for x in root.iter():
+    def visit(x, in_link):
         t = src.ptag(x)
+        if t == 'w:hyperlink' and not in_link:
+            # a hyperlink is one run string: a range that starts / ends inside it starts before / ends after that run
+            inner = [y for y in x.iter() if y is not x]
+            for y in inner:
+                if src.ptag(y) == 'w:commentRangeStart': order.append(('s', src.wval(y, 'id')))
+            for y in inner:
+                if src.ptag(y) in ('w:t', 'm:t'):
+                    for tok in src.TOKEN.findall(y.text or ''): order.append(('t', tok))
+            for y in inner:
+                if src.ptag(y) == 'w:commentRangeEnd': order.append(('e', src.wval(y, 'id')))
+            return
         if t == 'w:commentRangeStart': order.append(('s', src.wval(x, 'id')))
         elif t == 'w:commentRangeEnd': order.append(('e', src.wval(x, 'id')))
         elif t in ('w:t', 'm:t'):
             for tok in src.TOKEN.findall(x.text or ''): order.append(('t', tok))
+        for c in x:
+            if isinstance(c.tag, str): visit(c, in_link)
+    visit(root, False)
     ids = {}
     for k, (kind, v) in enumerate(order):
         if kind in 'se': ids.setdefault(v, []).append((kind, k))
